@@ -53,6 +53,7 @@ FIVE_YEARS = 157766400
 # ---- random DSDL namespaces ---------------------------------------------------------------------------------------------
 ROOTS = ['nsa', 'zoo', 'regx', 'acme', 'm1']
 SUBS = ['sub', 'top', 'inner', 'aa', 'zz', 'b2', 'mid', 'u7', 'u07', 'u007', 'x10', 'x010', 'Abc', 'abc']   # u7/u07...: tie under natural sort
+TIE_PARTNER = {'u7': 'u07', 'u07': 'u007', 'u007': 'u7', 'x10': 'x010', 'x010': 'x10', 'Abc': 'abc', 'abc': 'Abc'}
 SHORTS = ['T7', 'T07', 'V1x', 'V01x', 'Alpha', 'Beta', 'Gamma', 'Delta', 'Eps', 'Zeta', 'Eta', 'Theta', 'Iota', 'Kappa', 'A', 'Z9', 'Mu_x']
 PRIMS = ['uint8', 'int16', 'float32', 'bool', 'uint7', 'float64', 'uint8[3]', 'int32[<=4]', 'bool[5]', 'float16']
 
@@ -63,7 +64,8 @@ def gen_namespace(rng, size: int) -> dict:
     for _ in range(rng.randrange(0, 4)):
         parent = rng.choice(nss)
         if len(parent) < 3:
-            n = parent + [rng.choice(SUBS)]
+            sibs = [x[-1] for x in nss if x[:-1] == parent and x[-1] in TIE_PARTNER]
+            n = parent + [TIE_PARTNER[rng.choice(sibs)] if sibs and rng.random() < 0.5 else rng.choice(SUBS)]
             if n not in nss:
                 nss.append(n)
     lookup_types = []
@@ -227,6 +229,33 @@ def run_impl(cases: typing.List[dict], jobs: int = 6) -> typing.Dict[str, dict]:
     except Exception:
         return {c['id']: {'id': c['id'], 'runs': {}, 'harness_error': p.stdout[-600:]} for c in cases}
     return {o['id']: o for o in out}
+
+
+def tree_fingerprint() -> str:
+    """size+mtime of every file of the generator: the paired runs of one case must all see the same generator"""
+    import hashlib
+    h = hashlib.sha1()
+    base = os.path.join(core.REPO, 'src', 'nunavut')
+    for root, dirs, names in os.walk(base):
+        dirs[:] = sorted(d for d in dirs if d != '__pycache__')
+        for n in sorted(names):
+            if n.endswith('.pyc'):
+                continue
+            st = os.stat(os.path.join(root, n))
+            h.update(('%s %d %d\n' % (os.path.join(root, n), st.st_size, st.st_mtime_ns)).encode())
+    return h.hexdigest()
+
+
+def run_impl_stable(chk: core.Check, cases: typing.List[dict]) -> typing.Dict[str, dict]:
+    """/repo may receive a commit while the runs are in flight (it did, once): a pair would then compare two generators.
+    Re-run when the tree changed underneath."""
+    for attempt in range(3):
+        before = tree_fingerprint()
+        res = run_impl(cases)
+        if tree_fingerprint() == before:
+            return res
+        chk.notes.append('generator tree changed during the runs (attempt %d): runs repeated' % (attempt + 1))
+    return res
 
 
 # ---- the property as an executable oracle --------------------------------------------------------------------------------
@@ -469,7 +498,7 @@ def main(chk: core.Check, replay: typing.Optional[str] = None) -> int:
         cases = build_cases(chk)
 
     _t0 = _time.time()
-    results = run_impl(cases)
+    results = run_impl_stable(chk, cases)
     chk.notes.append('phase nnvg runs %.1fs' % (_time.time() - _t0))
     _t0 = _time.time()
 
